@@ -79,6 +79,10 @@ pub enum Limit {
     MoveTime(u64),
     /// (wtime, btime, winc, binc, movestogo) in ms, plus a depth cap to keep the cost bounded
     Clock(u64, u64, u64, u64, Option<u32>),
+    /// `go depth D movetime T`: both limits bind
+    DepthMoveTime(u8, u64),
+    /// `go depth D wtime .. btime ..`: both limits bind
+    DepthClock(u8, u64, u64, u64, u64, Option<u32>),
 }
 
 impl Limit {
@@ -88,11 +92,28 @@ impl Limit {
             Limit::DepthStop(d, k) => format!("dstop{d}/{k}"),
             Limit::MoveTime(t) => format!("movetime{t}"),
             Limit::Clock(w, b, wi, bi, mtg) => format!("clock{w}/{b}/{wi}/{bi}/{}", mtg.map(|x| x.to_string()).unwrap_or("-".into())),
+            Limit::DepthMoveTime(d, t) => format!("dmt{d}/{t}"),
+            Limit::DepthClock(d, w, b, wi, bi, mtg) => format!("dclock{d}/{w}/{b}/{wi}/{bi}/{}", mtg.map(|x| x.to_string()).unwrap_or("-".into())),
+        }
+    }
+    /// the depth limit the search was given, if any
+    pub fn depth_limit(&self) -> Option<u8> {
+        match self {
+            Limit::Depth(d) | Limit::DepthStop(d, _) | Limit::DepthMoveTime(d, _) | Limit::DepthClock(d, ..) => Some(*d),
+            _ => None,
         }
     }
     fn parse(t: &str) -> Option<Limit> {
         if let Some(d) = t.strip_prefix("depth") {
             return Some(Limit::Depth(d.parse().ok()?));
+        }
+        if let Some(d) = t.strip_prefix("dmt") {
+            let (a, b) = d.split_once('/')?;
+            return Some(Limit::DepthMoveTime(a.parse().ok()?, b.parse().ok()?));
+        }
+        if let Some(d) = t.strip_prefix("dclock") {
+            let p: Vec<&str> = d.split('/').collect();
+            return Some(Limit::DepthClock(p[0].parse().ok()?, p[1].parse().ok()?, p[2].parse().ok()?, p[3].parse().ok()?, p[4].parse().ok()?, p[5].parse().ok()));
         }
         if let Some(d) = t.strip_prefix("dstop") {
             let (a, b) = d.split_once('/')?;
@@ -122,6 +143,17 @@ pub fn do_search(g: &Game, ps: &mut PersistentState, limit: &Limit, overhead_ms:
         Limit::Depth(d) => (TimeControl::Infinite, Some(*d)),
         Limit::DepthStop(d, _) => (TimeControl::Infinite, Some(*d)),
         Limit::MoveTime(ms) => (TimeControl::ExactTime(Duration::from_millis(*ms)), None),
+        Limit::DepthMoveTime(d, ms) => (TimeControl::ExactTime(Duration::from_millis(*ms)), Some(*d)),
+        Limit::DepthClock(d, w, b, wi, bi, mtg) => (
+            TimeControl::Clocks(Clocks {
+                white_clock: Some(Duration::from_millis(*w)),
+                black_clock: Some(Duration::from_millis(*b)),
+                white_increment: Some(Duration::from_millis(*wi)),
+                black_increment: Some(Duration::from_millis(*bi)),
+                moves_to_go: *mtg,
+            }),
+            Some(*d),
+        ),
         Limit::Clock(w, b, wi, bi, mtg) => (
             TimeControl::Clocks(Clocks {
                 white_clock: Some(Duration::from_millis(*w)),
@@ -405,9 +437,19 @@ fn random_limit(rng: &mut Rng, p: &Pos, budget: u8, l: &mut Local) -> Limit {
         };
     }
     match rng.below(20) {
-        0..=11 => {
+        0..=9 => {
             let max = if men <= 5 { budget + 3 } else if men <= 10 { budget + 1 } else { budget };
             Limit::Depth(1 + rng.below(max as u64) as u8)
+        }
+        10 => {
+            // small depth cap, roomy time: the depth cap must be what ends the search
+            l.feat("limit_depth_and_movetime");
+            Limit::DepthMoveTime(1 + rng.below(3) as u8, *rng.pick(&[30u64, 60, 2000]))
+        }
+        11 => {
+            l.feat("limit_depth_and_clock");
+            let t = *rng.pick(&[400u64, 2000, 60000]);
+            Limit::DepthClock(1 + rng.below(3) as u8, t, t, *rng.pick(&[0u64, 10]), *rng.pick(&[0u64, 10]), *rng.pick(&[None, Some(1), Some(40)]))
         }
         12 => {
             if men <= 5 {
@@ -546,10 +588,10 @@ fn run_case(prop: SProp, case: &Case, l: &mut Local) -> Option<(String, String)>
                         }
                     }
                 } else {
-                    let lim = match st.limit {
-                        Limit::Depth(d) | Limit::DepthStop(d, _) => Some(d),
-                        _ => None,
-                    };
+                    let lim = st.limit.depth_limit();
+                    if lim.is_some() && !matches!(st.limit, Limit::Depth(_) | Limit::DepthStop(..)) {
+                        l.feat("searches_with_depth_and_time_limit");
+                    }
                     if i > 0 {
                         l.feat("searches_on_used_tables");
                     }
@@ -856,6 +898,7 @@ fn enumerate_stops(t: &Triple, only_k: Option<u64>, l: &mut Local, max_polls: u6
         h1::arm(k);
         let r = do_search(&g, &mut ps, &Limit::Depth(t.depth), 0);
         let (polls, first_true, entries, after) = h1::observed();
+        let stop_node = h1::take_stop_node();
         h1::arm(0);
         let ctx = format!("stop at poll {k} of {n_polls}");
         let out = match r {
@@ -881,6 +924,46 @@ fn enumerate_stops(t: &Triple, only_k: Option<u64>, l: &mut Local, max_polls: u6
         l.feat(&format!("completed_iterations_at_abort_{}", out.infos.len().min(12)));
         if out.infos.is_empty() {
             l.feat("fallback_to_first_picked_move");
+        }
+        // the tables remain usable where the search was when it unwound: the node at which the stop was
+        // observed (hook H5 hands over the search's working copy) and every position on the path from it
+        // back to the root are searched on the same tables
+        if let Some(mut w) = stop_node {
+            l.feat("stop_nodes_captured");
+            let root_len = g.history.len();
+            let mut walked = 0;
+            while w.history.len() >= root_len && walked < 40 {
+                let pa = game_to_ref(&w);
+                let legal_a = pa.legal_moves();
+                if !legal_a.is_empty() && pa.is_legal_position() {
+                    let mut wa = w.clone();
+                    // a search rooted here sees the game up to this point, like the aborted one did
+                    match do_search(&wa, &mut ps, &Limit::Depth(2), 0) {
+                        Err((m, loc)) => return Some((format!("c09.followup-panic@{}", short_loc(&loc)), format!("{ctx}: a later search on the same tables, rooted {walked} plies above the node where the stop was seen ({}), panicked: {m} at {loc}", w.to_fen()))),
+                        Ok(o2) => {
+                            l.feat("followup_searches_on_abort_path");
+                            if !legal_a.iter().any(|x| x.from == o2.best.from && x.to == o2.best.to && x.promo == o2.best.promo) {
+                                return Some(("c09.followup-illegal-move".into(), format!("{ctx}: a later search on the same tables, rooted {walked} plies above the node where the stop was seen ({}), returned the illegal move {}", w.to_fen(), o2.best.uci())));
+                            }
+                            let mut scratch = Local::default();
+                            if let Some((sig, what)) = judge_infos(&pa, &o2.infos, Some(2), &mut scratch) {
+                                return Some((format!("c09.followup.{sig}"), format!("{ctx}: a later search rooted on the abort path ({}) reported a bad line: {what}", w.to_fen())));
+                            }
+                        }
+                    }
+                    let _ = &mut wa;
+                }
+                if w.history.len() == root_len {
+                    break;
+                }
+                match w.history.last().map(|h| h.mv.is_none()) {
+                    Some(true) => w.undo_null_move(),
+                    Some(false) => w.undo_move(),
+                    None => break,
+                }
+                walked += 1;
+            }
+            l.feat_n("abort_path_plies_walked", walked);
         }
         // the tables remain usable: same position again, and the position after the returned move
         let follow_depth = t.depth.min(4).max(2);
